@@ -15,5 +15,5 @@ def combs(ctx):
     gfi.cond_discard_depends_on_old_check(ctx, "update")
 
 
-RULES = [gfi.dist_update, gfi.address_glue, combs, gfi.merge_polarity, c05.trace_update_reuses_args]
+RULES = [gfi.dist_update, gfi.address_glue, lambda ctx: gfi.density_reduction(ctx, ['Update', 'update']), combs, gfi.merge_polarity, c05.trace_update_reuses_args]
 FLOOR = 8
